@@ -619,9 +619,62 @@ Proof.
   - destruct Hr.
 Qed.
 
+Lemma prev_get_filter (g : N -> bool) k m :
+  prev_get k (filter (fun p => g (fst p)) m) = if g k then prev_get k m else None.
+Proof.
+  induction m as [|[k' v] m IH]; cbn [filter prev_get fst]; [destruct (g k); reflexivity|].
+  destruct (g k') eqn:Gk'; cbn [prev_get].
+  - destruct (N.eqb_spec k k') as [->|Hne]; [rewrite Gk'; reflexivity|exact IH].
+  - destruct (N.eqb_spec k k') as [->|Hne]; [rewrite IH, Gk'; reflexivity|exact IH].
+Qed.
+
+Lemma to_bits_mod h : e_id h < W32 -> to_bits h mod W32 = e_id h.
+Proof.
+  intros Hlt. rewrite (to_bits_arith h Hlt), N.add_comm, N.mod_add by (unfold W32; lia).
+  apply N.mod_small. exact Hlt.
+Qed.
+
+From HecsV Require Import Proofs.WorldProofs2.
+
+Theorem c18_spawn_at_proof : c18_spawn_at_stmt.
+Proof.
+  intros u s h b s' Hti I F Hb Hv Hs Hf' Hpl. unfold t_spawn_at in Hs.
+  destruct (w_spawn_at u (t_w s) h b) as [[w' d]|c] eqn:Hsp; [|discriminate].
+  injection Hs as <-. cbn [t_w t_prev] in *.
+  destruct (spawn_at_refines_proof u _ h b w' d Hti I F Hb Hv Hsp Hf') as (I' & Hfl' & _ & Hframe & _).
+  pose proof (WInv_fits_WInvP _ _ I F) as P.
+  pose proof (WInv_fits_WInvP _ _ I' Hf') as P'.
+  assert (Hidh : e_id h < W32) by (destruct Hv as [Hv _]; exact Hv).
+  split; [|split].
+  - intros k Hk. cbn [t_prev] in Hk. rewrite (prev_get_filter (fun x => negb (N.eqb (x mod W32) (e_id h)))) in Hk.
+    destruct (N.eqb_spec (k mod W32) (e_id h)) as [E|Hne]; cbn [negb] in Hk; [congruence|].
+    apply Hpl, ent_live_iff in Hk as (h' & l & Hin & E). apply ent_live_iff. cbn [t_w]. exists h', l. split; [|exact E].
+    assert (Hid : e_id h' <> e_id h).
+    { intros Heq. apply Hne. subst k. apply (eq_trans (to_bits_mod h' ltac:(rewrite Heq; exact Hidh))). exact Heq. }
+    apply (In_iter_abs _ _ P) in Hin as (Ha & _). apply (In_iter_abs _ _ P'). rewrite (Hframe h' Hid).
+    split; [exact Ha|]. apply (alive_get_mut_flushed _ _ Hfl'). unfold alive. rewrite (Hframe h' Hid), Ha. discriminate.
+  - cbn [t_prev]. rewrite (prev_get_filter (fun x => negb (N.eqb (x mod W32) (e_id h)))), (to_bits_mod h Hidh), N.eqb_refl. reflexivity.
+  - intros k Hk. cbn [t_prev]. rewrite (prev_get_filter (fun x => negb (N.eqb (x mod W32) (e_id h)))).
+    destruct (N.eqb_spec (k mod W32) (e_id h)) as [E|Hne]; [congruence|reflexivity].
+Qed.
+
+Theorem c18_frame_proof : c18_frame_stmt.
+Proof.
+  intros u s w' I F I' F' Hfl Hkeep Hpl k Hk. cbn [t_prev] in Hk.
+  pose proof (WInv_fits_WInvP _ _ I F) as P.
+  pose proof (WInv_fits_WInvP _ _ I' F') as P'.
+  apply Hpl, ent_live_iff in Hk as (h & l & Hin & E). apply ent_live_iff. cbn [t_w].
+  apply (In_iter_abs _ _ P) in Hin as (Ha & _).
+  destruct (abs w' h) as [l'|] eqn:Ha'; [|exfalso; exact (Hkeep h l Ha Ha')].
+  exists h, l'. split; [|exact E]. apply (In_iter_abs _ _ P'). split; [exact Ha'|].
+  apply (alive_get_mut_flushed _ _ Hfl). unfold alive. rewrite Ha'. discriminate.
+Qed.
+
 Print Assumptions c18_sets_proof.
 Print Assumptions c18_track_proof.
 Print Assumptions c18_script_irrelevant_proof.
 Print Assumptions c18_diff_proof.
 Print Assumptions c18_nodup_proof.
 Print Assumptions c18_despawn_proof.
+Print Assumptions c18_spawn_at_proof.
+Print Assumptions c18_frame_proof.
